@@ -175,6 +175,12 @@ def run_one(specs, cblock, cleanup):
                 return len(args)
             cb = edzed.FuncBlock('cb', func=fn).connect(*[b.name for b in blocks])
             allblocks.append(cb)
+            if cblock == 'oscillate':
+                # the first evaluation never settles: an Input and a FuncBlock negating it, closed by an
+                # output event (the Input changes again with every evaluation)
+                allblocks.append(edzed.Input('osc', initdef=0))
+                allblocks.append(edzed.FuncBlock('oscf', func=lambda v: 1 - v,
+                                                 on_output=edzed.Event('osc', 'put')).connect('osc'))
             # a combinational block fed by constants only must get its output in the first evaluation too
             allblocks.append(edzed.Not('cconst').connect(False))
             allblocks.append(edzed.FuncBlock('cconst2', func=lambda a, b: a + b).connect(10, 2))
@@ -294,7 +300,7 @@ class C05(common.Spec):
         if obs['harness'] is not None or obs['ok'] is None:
             raise common.HarnessProblem(f"C05 harness problem: {obs['harness']} on {case}")
         specs = permuted(case['base'], case['perm'])
-        return ("(Build_icase " + clist([c_spec(s) for s in specs]) + " " + cbool(case['cblock'] in ('fail', 'undef')) + " "
+        return ("(Build_icase " + clist([c_spec(s) for s in specs]) + " " + cbool(case['cblock'] in ('fail', 'undef', 'oscillate')) + " "
                 + clist([f"({CALLS[t]} {cnat(p)})" for t, p in obs['log']]) + " " + cbool(obs['ok'])
                 + " " + cbool(bool(obs['defined']) and bool(obs['ready'])) + " " + cz(obs['t_ms']) + " "
                 + clist([cbool(bool(x)) for x in obs['perm_ok']]) + " " + clist([cbool(x) for x in obs['flags']]) + ")")
@@ -548,6 +554,8 @@ def check(run):
         else:
             base = gen_base(run.rng, 4 if (run.tier != 'quick' or i % 4 == 0) else 3)
         cb = run.rng.choice([None, None, 'ok', 'ok', 'fail', 'undef'])
+        if cb == 'ok' and len(base) <= 2 and i % 2:
+            cb = 'oscillate'
         cl = run.rng.random() < 0.3
         run.count('blocks_%d' % len(base))
         run.count('cblock_%s' % cb)
@@ -556,6 +564,18 @@ def check(run):
         for perm in itertools.permutations(range(len(base))):
             cases.append(dict(base=base, perm=list(perm), cblock=cb, cleanup=cl))
     res = common.standard_flow(run, spec, cases)
+    # 'the simulation terminates with an error': a start-up that wait_init() reports as failed belongs to
+    # a simulation that has been terminated (Circuit.error set, not ready any more) - not to one that is
+    # still spinning
+    spinning = [(c, o) for c, o, ch in res if o['ok'] is False and o.get('ready') is True]
+    run.add_obligation(not spinning)
+    for c, o in spinning[:1]:
+        if True:
+            run.violation('monitor', dict(case=c, observed={k: v for k, v in o.items() if k != 'log'}),
+                          f"wait_init() reported a failed start-up ({o.get('exc')}) but the simulation was not "
+                          f"terminated: is_ready() is still True, Circuit.error {o.get('err')!r}; blocks "
+                          f"{json.dumps(permuted(c['base'], c['perm']))}, cblock={c['cblock']}",
+                          clause='failed_startup_not_terminated', concrete=True)
     for c, o, ch in res:
         run.count('ok' if o['ok'] else 'failed_start')
         for t, _ in o['log']:
@@ -563,4 +583,13 @@ def check(run):
 
 
 def replay(run, path):
+    payload, case = common.load_replay_case(path)
+    if payload.get('clause') == 'failed_startup_not_terminated':
+        def again():
+            o = C05().run_impl([case])[0]
+            if o['ok'] is False and o.get('ready') is True:
+                run.violation('monitor', dict(case=case, observed={k: v for k, v in o.items() if k != 'log'}),
+                              f"wait_init() reported a failed start-up ({o.get('exc')}) but the simulation was not "
+                              f"terminated", clause='failed_startup_not_terminated', concrete=True)
+        return common.directed_replay(run, path, again)
     return common.std_replay(run, C05(), path)
